@@ -164,10 +164,10 @@ claim("C02", "model_checking",
 claim("C03", "model_checking",
       "spec/MdBlocks.tla is the CommonMark block algorithm as a TLA+ state machine (containers, laziness, lists, headings, code, thematic "
       "breaks, tabs, HTML blocks of kinds 2/6/7, link reference definitions) and spec/MdInline.tla the emphasis algorithm with code spans, "
-      "backslash escapes and inline links; TLC enumerates every document over 16 line alphabets (2 lines exhaustive; 3 lines per (abstract state, line shape) transition with "
+      "backslash escapes, inline links, raw HTML (tags, processing instructions, CDATA, declarations) and URI / email autolinks; TLC enumerates every document over 18 line alphabets (2 lines exhaustive; 3 lines per (abstract state, line shape) transition with "
       "VIEW; positional alphabets for link reference definitions inside list items / block quotes, every tag name of HTML block start "
       "condition 6, and containers three deep) with the model's block tree -- link reference definitions included --, and every line over "
-      "{a, space, *, _} up to 6/8, {a, space, *, `, \\} up to 6/7 and {a, [, ], (, ), *} up to 5/6 characters with the model's HTML (placed in a "
+      "{a, space, *, _} up to 6/8, {a, space, *, `, \\} up to 6/7 and {a, [, ], (, ), *} up to 5/6 characters, raw-HTML tags (attribute forms x closers) and autolink / raw-HTML bodies x forms, with the model's HTML (placed in a "
       "paragraph, a heading and a block quote). The real parser's "
       "HTML is parsed back into the same canonical tree and compared. A disagreement is a violation only if corroborated: the vendored "
       "markdown-it-py must give the model's result; otherwise the document is in the contested region (counted; > 5 % is a machinery failure).",
